@@ -105,7 +105,7 @@ class SessionCheck(Check):
 
     # ---- model ----------------------------------------------------------------------------------
     def model_lines(self, case):
-        if case.get('kind') == 'e2e':
+        if case.get('kind') in ('e2e', 'connect'):
             return []
         lines, spans = self._runs.get(self._key(case), ([], []))
         return list(lines)
@@ -147,7 +147,7 @@ class SessionCheck(Check):
 
     def shrink(self, case, still_fails):
         # drop trailing commands while the failure persists (prefixes of a history are histories)
-        if case.get('kind') == 'e2e':
+        if case.get('kind') in ('e2e', 'connect'):
             return case
         cmds = case.get('cmds') or []
         best = case
